@@ -53,7 +53,7 @@ pub fn expected_result(call: CallId, req: &Req) -> Option<CallResult> {
         Req::TypedTuple { arity, rot, base } => Some(CallResult::Typed(typedlists::expected(*arity, *rot, &typedlists::toks(*base, *arity)))),
         Req::TypedVec { n, base } => Some(CallResult::Typed((0..*n as u64).map(|j| format!("update:{}", base + j)).collect())),
         Req::TypedUpdate { token } => Some(CallResult::Typed(vec![format!("update:{}", token)])),
-        Req::TypedStatus | Req::AlbumArt { .. } => None,
+        Req::TypedStatus | Req::AlbumArt { .. } | Req::TypedListing { .. } => None,
     }
 }
 
